@@ -96,11 +96,10 @@ where
         let l = self.shape;
 
         let v: F = rng.sample(StandardNormal);
-        let y = mu * v * v;
-
-        let mu_2l = mu / (F::from(2.).unwrap() * l);
-
-        let x = mu + mu_2l * (y - (F::from(4.).unwrap() * l * y + y * y).sqrt());
+        // With w = mu v^2 / (2 l) the smaller root is mu (1 + w - sqrt(w (w + 2))); evaluate it
+        // in the cancellation-free form mu / (1 + w + sqrt(w (w + 2))), which is always positive.
+        let w = mu * v * v / (F::from(2.).unwrap() * l);
+        let x = mu / (F::one() + w + (w * (w + F::from(2.).unwrap())).sqrt());
 
         let u: F = rng.random();
 
